@@ -183,12 +183,13 @@ def main(argv=None):
     ap.add_argument("--no-lean", action="store_true", help="skip the proof re-check (debugging only; evidence says so)")
     args = ap.parse_args(argv)
     seed = int(os.environ.get("VERIF_SEED", "0"))
-    pid = args.prop
-    mod = importlib.import_module(f"vlib.props.{pid.lower()}")
+    part = args.prop            # e.g. "C05" or a family part "C05_vol" (development aid; same pipeline)
+    pid = part.split("_")[0]
+    mod = importlib.import_module(f"vlib.props.{part.lower()}")
     t0 = time.time()
     violations = []        # (replay payload, suffix)
     notes = []
-    evidence_path = os.path.join(EVIDENCE, f"{pid}.json")
+    evidence_path = os.path.join(EVIDENCE, f"{part}.json")
     os.makedirs(EVIDENCE, exist_ok=True)
 
     # 1. build from the current tree
